@@ -108,7 +108,7 @@ def emit_graph(module_file, cfg_text, ctx, name, timeout=1200, injective=True):
     return g, res
 
 
-def walk(g, adapter, ctx, name, max_nodes=200000, op_timeout=0.5, sig_fn=None, report_limit=40, paths_per_state=1):
+def walk(g, adapter, ctx, name, max_nodes=200000, op_timeout=2.0, sig_fn=None, report_limit=40, paths_per_state=1):
     """Breadth-first walk of the real code over graph `g`.
 
     adapter.new_world() -> world ; adapter.apply(world, op) -> JSON-able result ; adapter.obs(world) -> JSON-able
